@@ -27,7 +27,7 @@
 #define REAL(name) ({ static __typeof__(&name) fp; if (!fp) { t_in_sim++; fp = (__typeof__(&name))dlsym(RTLD_NEXT, #name); t_in_sim--; } fp; })
 #define RAW(...) raw_syscall6(__VA_ARGS__)
 static inline long rawret(long r) { if (r < 0 && r > -4096) { errno = (int)-r; return -1; } return r; }
-static inline bool simfd(int fd) { return fd >= SIMFD_BASE || (sim_active() && fd >= 0 && fd <= 2); }
+#define simfd(fd) ((fd) >= SIMFD_BASE || (sim_active() && (fd) >= 0 && (fd) <= 2))
 
 static void blocks(const char *what) { SimScope s; sim_step(); Ev &e = sim_event(what); e.mark |= MARK_BLOCKS; G.counters["would-block"]++; }
 
@@ -292,7 +292,7 @@ int getlogin_r(char *buf, size_t len) {
     if (faulted && f.err) { e.ret = f.err; e.mark |= MARK_FAULT; return f.err; }
     if (G.w.login_errno) { e.ret = G.w.login_errno; return G.w.login_errno; }
     if (len < G.w.login_name.size() + 1) return ERANGE;
-    memcpy(buf, G.w.login_name.c_str(), G.w.login_name.size() + 1);
+    sut_write(buf, G.w.login_name.c_str(), G.w.login_name.size() + 1);
     return 0;
 }
 char *getlogin(void) {
@@ -308,8 +308,8 @@ int gethostname(char *buf, size_t len) {
     Ev &e = sim_event("gethostname"); e.a = (long)len;
     if (faulted && f.err) { e.ret = -1; e.err = f.err; e.mark |= MARK_FAULT; errno = f.err; return -1; }
     size_t n = G.w.hostname.size() + 1;
-    if (len < n) { memcpy(buf, G.w.hostname.c_str(), len); errno = ENAMETOOLONG; e.ret = -1; e.err = ENAMETOOLONG; return -1; }
-    memcpy(buf, G.w.hostname.c_str(), n);
+    if (len < n) { sut_write(buf, G.w.hostname.c_str(), len); errno = ENAMETOOLONG; e.ret = -1; e.err = ENAMETOOLONG; return -1; }
+    sut_write(buf, G.w.hostname.c_str(), n);
     return 0;
 }
 char *getcwd(char *buf, size_t size) {
@@ -322,7 +322,7 @@ char *getcwd(char *buf, size_t size) {
     size_t n = G.w.cwd.size() + 1;
     if (!buf) { t_in_sim--; buf = (char *)malloc(size ? size : n); t_in_sim++; if (!size) size = n; }
     if (size < n) { errno = ERANGE; e.ret = -1; e.err = ERANGE; return nullptr; }
-    memcpy(buf, G.w.cwd.c_str(), n);
+    sut_write(buf, G.w.cwd.c_str(), n);
     return buf;
 }
 int ttyname_r(int fd, char *buf, size_t len) {
@@ -336,7 +336,7 @@ int ttyname_r(int fd, char *buf, size_t len) {
     else if (G.w.tty_state == 0) r = ENOTTY;
     else if (G.w.tty_state == 1) r = EBADF;
     else if (len < G.w.tty_path.size() + 1) r = ERANGE;
-    else memcpy(buf, G.w.tty_path.c_str(), G.w.tty_path.size() + 1);
+    else sut_write(buf, G.w.tty_path.c_str(), G.w.tty_path.size() + 1);
     e.ret = r;
     return r;
 }
